@@ -29,8 +29,10 @@ RULE = ("one unit = one configuration (grid x (minishard,shard,preshift) "
         "the same with a single close after both scales (the pattern "
         "convert-chunks uses) and with the two scales' chunks stored "
         "alternately - all three must give byte-identical shard files. "
-        "Big-payload family: chunks of 0..12289 bytes (around the 4096-byte "
-        "block size of the write buffers), 4 orders x both strategies. "
+        "Big-payload family: three chunk-length patterns (0..12289 bytes "
+        "around the 4096-byte block size of the write buffers; small chunks "
+        "after big ones; 1..131073 bytes so that one minishard exceeds 64 "
+        "KiB), 4 orders x both strategies. "
         "Non-trivial states: >= 2 chunks stored.")
 ASSUMPTIONS = [
     "one write session per scale, each chunk stored once (the statement's "
@@ -118,12 +120,15 @@ def big_configs():
     """payloads of 0..12289 bytes (around the 4096-byte block size the
     write buffers are read back with)"""
     out = []
-    for size, c in BIG_GRIDS:
-        for t in BIG_TRIPLES:
-            for ie, de in (("raw", "raw"), ("gzip", "raw")):
-                out.append({"size": list(size), "chunk": c,
-                            "triple": list(t), "index_enc": ie,
-                            "data_enc": de, "payloads": "big"})
+    for mode in ("big", "big2", "huge"):
+        for size, c in BIG_GRIDS:
+            for t in BIG_TRIPLES:
+                for ie, de in (("raw", "raw"), ("gzip", "raw")):
+                    if mode == "huge" and (ie == "gzip" or t == (1, 0, 1)):
+                        continue
+                    out.append({"size": list(size), "chunk": c,
+                                "triple": list(t), "index_enc": ie,
+                                "data_enc": de, "payloads": mode})
     return out
 
 
